@@ -3,22 +3,28 @@ C16 — model of the three `runner.sh` scripts.
 
 * `Sh` is the AST of the bash subset the scripts use.  The scripts themselves are *generated*
   constants (`FaxVerif/Generated/C16Scripts.lean`, rewritten from /repo on every run by
-  tools/props/c16.py).  Anything the translator does not recognise is an `unknown` node (or a
-  `bad` word part / `bad` test), which the `Strict` discipline rejects.
-* Strings the script never inspects (option arguments, inherited environment, the start
-  directory, the script directory) are *atoms*; a value is a list of atoms.  So a theorem about a
-  script run with `-d ⟨optarg 0⟩` is a theorem about every string the user may pass.
+  tools/props/c16.py + tools/c16_lib/shparse.py).  Anything the translator does not recognise is an
+  `unknown` node (or a `bad` word part / `bad` test), which the `Strict` discipline rejects.
+* Strings the script never inspects (option arguments, inherited environment, the start directory,
+  the script directory) are *atoms*; a value is a list of atoms.  So a theorem about a script run with
+  `-d ⟨optarg 0⟩` is a theorem about every string the user may pass (word splitting of such strings is
+  NOT modelled: see the known findings).
 * Big-step semantics in two stages:
     `exec : Sh → St → Tree Res`   unfolds the script into a decision tree whose inner nodes are the
                                   points where the outside world is consulted: an external command
-                                  (`cmd`: succeeds or fails), a file-system / environment query
-                                  (`ask`) or a file-system effect of the shell itself (`eff`);
+                                  (`cmd`: succeeds or fails; carries the tool's pre-conditions and its
+                                  file-system effects), a file-system / environment query (`ask`) or a
+                                  file-system effect of the shell itself (`eff`: redirections);
     `interp : Tree α → Dyn → α × Dyn`  walks the tree under universally quantified oracles
                                   (`Oracle.status : Nat → Cmd → Nat` per invocation index,
-                                  `Oracle.q` for non-file queries) and an arbitrary initial file
+                                  `Oracle.q` for non-file queries) from an arbitrary initial file
                                   system, maintaining the file system and the command log.
-  `set -e`, `$?`, `exit`, `if`, the `while getopts … case` loop, `cd`, `source`, `eval` of a
-  literal, redirections and here-documents are modelled; a step is atomic success / failure.
+  `set -e`, `$?`, `exit`, `if`/`elif`/`else` over `[ … ]`/`[[ … ]]`, the `while getopts … case` loop
+  (`getoptsParse` models `getopts "d:o:cr"`: clusters, attached/detached arguments, missing argument,
+  `--`), `shift $((OPTIND-1))`, `cd`, `source`, `eval` of a literal, `export`, redirections and
+  here-documents are modelled; a step is atomic success / failure.  The semantics and the tool table
+  (`toolPlan`: what mkdir/cp/rm/cat/the job/the converter do) are validated against bash with stub
+  tools on every run of the check.
 No Mathlib / Batteries import: the driver runs this file with `lean --run`.
 -/
 namespace FaxVerif.C16
